@@ -22,6 +22,7 @@ Recipe pool_recipe(uint64_t master, uint64_t idx, bool many) {
   if (r.ch > 8) r.n = std::min<int64_t>(r.n, 5000);
   r.sig = (int)g.below(6); if (g.chance(0.1)) r.sig = 4;
   r.seed = g.next() % 100000; r.ncomm = (int)g.below(4);
+  if (g.chance(0.12) && r.n > 6000) r.cut = 1 + (int)g.below(30);
   return r;
 }
 
@@ -44,9 +45,22 @@ void build_stream(const Plan &plan, StreamRef &sr) {
   int64_t acc = 0;
   for (int i = 0; i < sr.nlinks; i++) { sr.start.push_back(acc); acc += sr.ps.links[i]->len; }
   sr.start.push_back(acc); sr.total = acc;
-  for (int i = 0; i < sr.nlinks; i++) sr.boundaries.push_back(sr.start[i]);
-  for (auto &p : sr.ps.pages) if (p.link >= 0 && !p.header && p.granule >= 0) sr.boundaries.push_back(sr.start[p.link] + std::min<int64_t>(p.granule, sr.ps.links[p.link]->len));
+  for (int i = 0; i < sr.nlinks; i++) {
+    sr.boundaries.push_back(sr.start[i]);
+    Link &l = *sr.ps.links[i]; int64_t go = 0;
+    if ((l.r.cut || l.r.bs64) && !l.audio.empty()) go = std::max<int64_t>(0, l.audio.back().granule - l.len);
+    sr.goff.push_back(go);
+    if (l.r.cut) { int ap = 0; for (auto &p : sr.ps.pages) if (p.link == i && !p.header) ap++; if (ap < 2) sr.ambiguous_cut = true; }
+  }
+  for (auto &p : sr.ps.pages) if (p.link >= 0 && !p.header && p.granule >= 0) sr.boundaries.push_back(sr.start[p.link] + std::max<int64_t>(0, std::min<int64_t>(p.granule - sr.goff[p.link], sr.ps.links[p.link]->len)));
   std::sort(sr.boundaries.begin(), sr.boundaries.end());
   sr.bytes = sr.ps.bytes;
   if (plan.count("pfault")) { sr.damaged = true; apply_pfaults(plan, sr); }
+}
+
+// debugging aid: write the physical stream a plan describes to a file
+void vfsim_dump(const Plan &plan, const char *path) {
+  StreamRef sr; build_stream(plan, sr);
+  FILE *f = fopen(path, "wb"); if (!f) return; fwrite(sr.bytes.data(), 1, sr.bytes.size(), f); fclose(f);
+  fprintf(stderr, "wrote %zu bytes, %d links, total %lld samples\n", sr.bytes.size(), sr.nlinks, (long long)sr.total);
 }
